@@ -154,7 +154,7 @@ func managerKeepsValidatorUpdates(r *Run, rule string) {
 					}
 				}
 				gs := P.EdgeGuards(p, k)
-				ok2, _ := HasAtom(gs, `^\(0 < len\(types/module\.AppModule\.EndBlock\(`)
+				ok2, _ := HasAtom(gs, `^!\(0 == len\(types/module\.AppModule\.EndBlock\(`)
 				r.Check(ok2, rule, "Manager.EndBlock/replace-only-when-non-empty", P.InstrPos(c), "under len(moduleValUpdates) > 0", "a module's EndBlock result replaces the collected validator updates under {"+strings.Join(atomStrings(gs), " ; ")+"} ; required len(result) > 0 — an empty result of a later module would erase the staking module's updates")
 			}
 		}
